@@ -65,7 +65,11 @@ struct LcSim : Harness {
     struct sigaction sa; memset(&sa, 0, sizeof sa); sa.sa_sigaction = crash_handler; sa.sa_flags = SA_SIGINFO | SA_ONSTACK | SA_NODEFER;
     for (int s : {SIGSEGV, SIGBUS, SIGILL, SIGFPE, SIGABRT}) sigaction(s, &sa, nullptr);
     wrap::hooks.malloc_ = w_malloc; wrap::hooks.calloc_ = w_calloc; wrap::hooks.realloc_ = w_realloc; wrap::hooks.free_ = w_free; wrap::hooks.other = w_other;
-    wrap::hooks.clock_ticks = &clock_ticks;
+    wrap::hooks.clock_ticks = &clock_ticks; wrap::hooks.on_exit = w_exit;
+  }
+  static void w_exit(int code, void *ra) {
+    std::string fn = g_sym.name(ra);
+    if (g_slot) snprintf((char *) g_slot->note, NOTE_LEN, "CLASS=crash SIG=exit_in_%s library code called exit(%d) from %s during %s", fn.c_str(), code, fn.c_str(), g_phase);
   }
 
   // ------------------------------------------------------------------------------------------ libwrap policy
@@ -320,11 +324,13 @@ struct LcSim : Harness {
     else if (o == "link") do_link(op, out);
     else if (o == "gen") do_gen(op, out);
     else if (o == "call" || o == "interp") do_call(op, out, o == "interp");
+    else if ((o == "out" || o == "outitem" || o == "write") && any_lazy_bb()) { /* the lazy basic-block generator keeps functions in generator form: their MIR can no longer be printed or written (outside every claimed statement) */ }
     else if (o == "out") { phase("MIR_output"); char *b = nullptr; size_t l = 0; FILE *f = open_memstream(&b, &l); MIR_output(ctx, f); fclose(f); th.u64(l); free(b); C->count("text_output"); }
     else if (o == "outitem") { std::string n = op.size() > 1 ? op[1].s : ""; Fn *f = find_fn(n); if (f && f->item) { phase("MIR_output_item", n); std::string t = item_text(ctx, f->item); th.u64(t.size()); C->count("item_output"); } }
     else if (o == "write") { phase("MIR_write"); store.clear(); MIR_write_with_func(ctx, st_writer); th.u64(store.size()); C->count("binary_write"); }
   }
   // lazily generated code may call MIR_gen machinery later: never finish the generator while thunks still point at wrappers
+  bool any_lazy_bb() { for (auto &m : mods) if (m.linked && m.iface == 4) return true; return false; }
   bool lazy_pending() { for (auto &m : mods) if (m.linked && (m.iface == 3 || m.iface == 4 || m.iface == 2)) return true; return false; }
 
   // ---- binding model
@@ -369,6 +375,11 @@ struct LcSim : Harness {
       if (expect_error < 0) { expect_error = MIR_undeclared_op_ref_error; expect_error_why = "import of undefined " + n + " in module " + std::to_string(mi); }
     }
     if (use_resolver && !ext_loaded) { /* ext resolved by the resolver on demand */ }
+    for (int mi : pending) for (auto &fj : prog_json->at("mods")[(size_t) mi].at("funcs").a) {
+      bool bad = false; std::string who;
+      prog::walk(fj.at("body"), [&](const Json &st) { if (st[0].s == "call") { Fn *g = callable_fn(st[2].s); if (g && mods[g->mod].iface == 4 && g->lazybb_entered) { bad = true; who = st[2].s; } } });
+      if (bad) { out.fail("lazybb_consumed_mir_used_by_later_link", "inline", "module " + std::to_string(mi) + " is linked after function " + who + " has been entered under the lazy basic-block interface: the generator left " + who + "'s MIR in its own form, and inlining it now copies that form"); return; }
+    }
     void (*setif)(MIR_context_t, MIR_item_t) = iface == 0 ? nullptr : iface == 1 ? MIR_set_interp_interface : iface == 2 ? MIR_set_gen_interface : iface == 3 ? MIR_set_lazy_gen_interface : MIR_set_lazy_bb_gen_interface;
     phase("MIR_link", fmt("iface=%d resolver=%d pending=%zu", iface, (int) use_resolver, pending.size()));
     if (pending.size() >= 3) C->count("link_with_3_pending_modules");
@@ -395,7 +406,7 @@ struct LcSim : Harness {
     std::string t = snap_text(f);
     if (t != before) {
       size_t k = 0; while (k < t.size() && k < before.size() && t[k] == before[k]) k++;
-      size_t ls = before.rfind('\n', k); ls = ls == std::string::npos ? 0 : ls + 1; size_t le = before.find('\n', k); size_t ls2 = std::min(ls, t.size()), le2 = t.find('\n', k);
+      size_t ls = k == 0 ? std::string::npos : before.rfind('\n', k - 1); ls = ls == std::string::npos ? 0 : ls + 1; size_t le = before.find('\n', ls); size_t ls2 = std::min(ls, t.size()), le2 = t.find('\n', ls2);
       if (getenv("LCSIM_DUMP")) fprintf(stderr, "---- before:\n%s\n---- after:\n%s\n", before.c_str(), t.c_str());
       out.fail("mir_text_changed", when, fmt("MIR_output_item text of function %s differs before and %s: was '%s' now '%s'", f.def->gets("name").c_str(), when, before.substr(ls, le == std::string::npos ? std::string::npos : le - ls).c_str(), t.substr(ls2, le2 == std::string::npos ? std::string::npos : le2 - ls2).c_str()));
     } else C->count("text_compared_equal");
@@ -414,7 +425,7 @@ struct LcSim : Harness {
     f->gen_addr = a;
     if (a != f->item->addr) out.fail("gen_address_changed", "item_addr", fmt("MIR_gen(%s) returned %p but the item's public address is %p", n.c_str(), a, f->item->addr));
     if (f->addr_seen && f->addr_seen != f->item->addr) out.fail("public_address_changed", "gen", fmt("public address of %s changed from %p to %p", n.c_str(), f->addr_seen, f->item->addr));
-    check_text(*f, before, out, "after MIR_gen");
+    if (mode == "C16" || mods[f->mod].iface != 4) check_text(*f, before, out, "after MIR_gen");
     th.str("gen"); th.str(n.c_str());
   }
   std::string first_log_diff() { size_t i = 0; while (i < ext_log.size() && i < model.log.size() && ext_log[i] == model.log[i]) i++; std::string r = fmt("; first difference at call %zu:", i); if (i < ext_log.size()) r += fmt(" got ext(%lld,%lld)", (long long) ext_log[i].tag, (long long) ext_log[i].v); if (i < model.log.size()) r += fmt(" model ext(%lld,%lld)", (long long) model.log[i].tag, (long long) model.log[i].v); return r; }
@@ -458,7 +469,7 @@ struct LcSim : Harness {
     }
     // snapshot the text of every function this execution will enter (lazy generation or interpretation may happen inside)
     std::vector<std::pair<Fn *, std::string>> snaps;
-    if (mode == "C16" || mode == "C03") {
+    if (mode == "C16") {  // whole-function generation only: the lazy basic-block generator legitimately keeps working on the function's insns
       std::set<const Json *> seen;
       for (auto d : model.entered) if (seen.insert(d).second && seen.size() <= 6) for (auto &kv : fns) for (auto &x : kv.second) if (x.def == d && x.item) snaps.push_back({&x, snap_text(x)});
     }
@@ -594,6 +605,11 @@ struct LcSim : Harness {
       if (r.chance(1, 3)) push({"opt", (int) r.below(4)});
       int iface = noexec ? 0 : m == "C16" ? (int) r.range(1, 3) : m == "C03" ? (int) r.range(1, 4) : (int) r.range(1, 3);
       if (family == 1 && iface != 0) iface = 1; else if (family == 2 && iface == 1) iface = (int) r.range(2, m == "C03" ? 4 : 3);
+      if (iface == 4) {  // the lazy basic-block generator consumes the MIR of the functions it enters: no later step may inline them
+        bool needed_later = false; for (auto x : remaining) for (auto d : deps[x]) if (step.count(d)) needed_later = true;
+        if (needed_later) iface = 3;
+      }
+      if (iface == 4 && !probe_mix && (int) kn.geti("placement", 1) >= P_SPREAD_4G) iface = 3;  // bb thunks reach only +-2GB (known finding, probed rarely)
       if (iface == 4) any_bb = true;
       push({"link", iface, 0});
       if (r.chance(1, 2) && !remaining.empty()) { const auto &mo = prog.at("mods")[*step.begin()]; if (mo.at("funcs").size()) push({r.chance(2, 3) || family == 2 || any_bb ? "call" : "interp", mo.at("funcs")[0].gets("name"), rnd_args()}); }
@@ -650,6 +666,7 @@ struct LcSim : Harness {
       return;
     }
     if (e.cls != "crash") return;
+    bool uses_bb = false; for (auto &op : plan.at("ops").a) if (op.k == Json::Arr && op.size() > 1 && op[0].s == "link" && op[1].num() % 5 == 4) uses_bb = true;
     for (int level = 0; level < 4; level++) {
       Json p = plan; Json ops = Json::array(); size_t nm = plan.at("prog").at("mods").size();
       auto push = [&](std::initializer_list<Json> l) { Json o = Json::array(); for (auto &x : l) o.push(x); ops.push(o); };
@@ -659,6 +676,11 @@ struct LcSim : Harness {
       push({"link", 2, 0});
       p.set("ops", ops); p["knobs"].erase("reenter"); p["knobs"].set("placement", (int) P_PACKED_FAR);
       ChildEnd c = run_isolated(*this, p, hang_seconds(), false);
+      if (c.status != "crash" && uses_bb) {  // the same with the lazy basic-block generator and the same calls
+        Json q = p; Json &qo = q["ops"]; qo.a.back() = Json::array(); qo.a.back().push("link"); qo.a.back().push(4); qo.a.back().push(0);
+        for (auto &op : plan.at("ops").a) if (op.k == Json::Arr && op.size() > 1 && (op[0].s == "call" || op[0].s == "interp")) { Json cc = op; cc[0] = Json("call"); qo.push(cc); }
+        c = run_isolated(*this, q, hang_seconds(), false);
+      }
       if (c.status == "crash") {
         e.cls = "side_program_level_generator_crash"; e.detail = "the plain history scan/load/link(eager, -O" + std::to_string(level) + ") of the same program crashes too (" + c.sig + "): " + e.detail; e.sig = c.sig;
         return;
